@@ -10,7 +10,8 @@ from .models import (ContextMgr, DType, PyCallable, UNIT_SECONDS, _where, as_ope
                      el_num, floor_fr, num_of_el, parse_dtype, trunc_fr)
 from .models_py import DefaultDict, LOGGER, Logger, ParamVal, PartialVal, PathVal, SigVal, StringIOVal
 from .repo import AnalysisError
-from .vec import MASKED, NONE_EL, OOB, Backing, El, Masked, Sc, Vec, Vec2, norm_index
+from .vec import (MASKED, NONE_EL, OOB, Backing, El, Masked, Sc, Vec, Vec2, m_and, m_conc, m_formula, m_ite, m_or,
+                  norm_index)
 
 PY_METHODS = {
     list: {'append', 'extend', 'pop', 'insert', 'remove', 'index', 'count', 'sort', 'reverse', 'copy', 'clear'},
@@ -178,7 +179,7 @@ def vec_getattr(M, interp, v, name, node):
     if name == 'mask':
         if v.kind != 'ma':
             raise AbsRaise(ExcVal('AttributeError', (f"'{_tname(v)}' object has no attribute 'mask'",)), node)
-        out = Vec.fresh([El(X.TRUE if e.m else X.FALSE, False) for e in v.els()], kind='nd', dtype='b1')
+        out = Vec.fresh([El(m_formula(e.m), False) for e in v.els()], kind='nd', dtype='b1')
         return out
     if name == 'data':
         if v.kind == 'ma':
@@ -399,7 +400,7 @@ def register(M):
         """np.array(v): fresh ndarray.  Library fact (row 2): a MaskedArray argument loses its mask."""
         if isinstance(v, Vec):
             if v.kind == 'ma':
-                interp.event('mask-dropped', node=node, any_masked=any(v.masks()))
+                interp.event('mask-dropped', node=node, any_masked=any(m is not False for m in v.masks()))
             out = Vec.fresh([El(e.d, False) for e in v.els()], kind='nd', dtype=v.dtype, unit=v.unit)
             return out
         if isinstance(v, (list, tuple)):
@@ -543,7 +544,7 @@ def register(M):
             bad = e.d == X.NAN or (isinstance(e.d, tuple) and e.d[0] == 'fn' and e.d[1] == 'inf')
             if v.dtype == 'M8' and e.d == X.NAN:
                 bad = True     # NaT
-            out.append(El(e.d, e.m or bad))
+            out.append(El(e.d, m_or(e.m, bad)))
         res = Vec.fresh(out, kind='ma', dtype=v.dtype, unit=v.unit)
         res.tz = v.tz
         return res
@@ -652,7 +653,7 @@ def register(M):
             ms = [True] * len(els)
         else:
             raise AnalysisError('mask= form not modelled', node)
-        out = Vec.fresh([El(e.d, (e.m if base.kind == 'ma' else False) or m) for e, m in zip(els, ms)],
+        out = Vec.fresh([El(e.d, m_or((e.m if base.kind == 'ma' else False), m)) for e, m in zip(els, ms)],
                         kind='ma', dtype=base.dtype, unit=base.unit)
         if 'fill_value' in kw:
             out._fill = kw['fill_value'] if not isinstance(kw['fill_value'], Sc) else kw['fill_value'].value()
@@ -663,7 +664,7 @@ def register(M):
     @meth(Vec, 'flatten', 'copy', 'compressed')
     def _flatten(interp, v, args, kw, node):
         if node is not None and getattr(node, 'func', None) is not None and getattr(node.func, 'attr', '') == 'compressed':
-            return Vec.fresh([El(e.d, False) for e in v.els() if not e.m], kind='nd', dtype=v.dtype, unit=v.unit)
+            return Vec.fresh([El(e.d, False) for e in v.els() if not m_conc(e.m, node, 'compressed()')], kind='nd', dtype=v.dtype, unit=v.unit)
         return v.copy()
 
     @meth(Vec, 'ravel', 'squeeze', 'view')
@@ -700,18 +701,18 @@ def register(M):
     def _count(interp, v, args, kw, node):
         if v.kind == 'series':
             return sum(1 for e in v.els() if e.d != X.NAN)
-        return sum(1 for e in v.els() if not e.m)
+        return sum(1 for e in v.els() if not m_conc(e.m, node, 'count()'))
 
     @meth(Vec, 'any')
     def _vany(interp, v, args, kw, node):
-        els = [e for e in v.els() if not e.m]
+        els = [e for e in v.els() if not m_conc(e.m, node, 'any()')]
         if v.kind == 'ma' and not els and len(v):
             return MASKED
         return mkbool(X.f_or(*[bool_of_el(e.d) for e in els])) if els else False
 
     @meth(Vec, 'all')
     def _vall(interp, v, args, kw, node):
-        els = [e for e in v.els() if not e.m]
+        els = [e for e in v.els() if not m_conc(e.m, node, 'all()')]
         if v.kind == 'ma' and not els and len(v):
             return MASKED
         return mkbool(X.f_and(*[bool_of_el(e.d) for e in els])) if els else True
@@ -779,7 +780,7 @@ def register(M):
                     raise AbsRaise(ExcVal('TypeError', ('ufunc on None',)), node)
                 if e.d == OOB:
                     raise AnalysisError('ufunc reads memory outside the buffer', node)
-                if e.m and ma_operator:
+                if e.m is True and ma_operator:
                     out.append(e)
                 else:
                     out.append(El(fn_expr(num_of_el(e.d)), e.m))
@@ -810,11 +811,11 @@ def register(M):
                     d = fn_expr(bool_of_el(ea.d), bool_of_el(eb.d))
                 else:
                     d = fn_expr(num_of_el(ea.d), num_of_el(eb.d))
-                out.append(El(d, ea.m or eb.m))
+                out.append(El(d, m_or(ea.m, eb.m)))
             check_oob(interp, [e for p in pairs for e in p], node)
             if tmpl is None:
                 e = out[0]
-                if e.m:
+                if m_conc(e.m, node, 'scalar result'):
                     return MASKED
                 return mkbool(e.d) if X.is_formula(e.d) else Sc(e.d)
             kind = result_kind(a, b)
@@ -848,7 +849,8 @@ def register(M):
                 fv = True if v.dtype == 'b1' else 10**20
         o = as_operand(fv)
         d = bool_of_el(o[1]) if v.dtype == 'b1' else num_of_el(o[1])
-        return Vec.fresh([El(d, False) if e.m else El(e.d, False) for e in v.els()], kind='nd', dtype=v.dtype, unit=v.unit)
+        return Vec.fresh([El(d, False) if e.m is True else (El(e.d, False) if e.m is False else El(X.ite(m_formula(e.m), d, e.d), False)) for e in v.els()],
+                         kind='nd', dtype=v.dtype, unit=v.unit)
 
     @ext('numpy.diff', 'numpy.ma.diff')
     def _diff(interp, args, kw, node):
@@ -870,7 +872,7 @@ def register(M):
                 d = X.f_xor(bool_of_el(a.d), bool_of_el(b.d))
             else:
                 d = X.sub(num_of_el(a.d), num_of_el(b.d))
-            out.append(El(d, a.m or b.m))
+            out.append(El(d, m_or(a.m, b.m)))
         dt, unit = v.dtype, v.unit
         if dt == 'M8':
             dt, unit = 'm8', 'ns'
@@ -918,7 +920,7 @@ def register(M):
             items = [(i, bool_of_el(e.d)) for i, e in enumerate(c.els())]
             if getattr(c, 'kind', '') == 'ma':
                 # np.where on a masked condition: masked cells count as False (filled(False))
-                items = [(i, X.FALSE if e.m else bool_of_el(e.d)) for i, e in enumerate(c.els())]
+                items = [(i, X.f_and(X.f_not(m_formula(e.m)), bool_of_el(e.d))) for i, e in enumerate(c.els())]
             return (IndexSet(items),)
         c, a, b = args
         from .models_np import broadcast
@@ -999,7 +1001,7 @@ def register(M):
         if any(e.d == NONE_EL for e in els):
             raise AbsRaise(ExcVal('TypeError', ('reduction over None',)), node)
         if v.kind == 'ma' and skip_masked:
-            return [num_of_el(e.d) for e in els if not e.m], any(e.m for e in els)
+            return [num_of_el(e.d) for e in els if not m_conc(e.m, node, 'reduction')], any(e.m for e in els)
         return [num_of_el(e.d) for e in els], False
 
     def reduction(fname, empty_raises, ma_aware=True):
@@ -1113,14 +1115,15 @@ def register(M):
             out = []
             for i in range(ln.pop()):
                 es = [v.el(i) for v in vs]
-                if any(e.m for e in es):
-                    out.append(El(X.ANY, True))
-                    continue
+                # the function is applied to the underlying data; the result is masked where an argument is
                 res = it.call(f, [Sc(e.d, v.dtype, v.unit) for e, v in zip(es, vs)], {}, n)
                 o = as_operand(res)
                 if o is None:
                     raise AnalysisError('vectorized function result not modelled', n)
-                out.append(El(o[1], o[2]))
+                mm = o[2]
+                for e in es:
+                    mm = m_or(mm, e.m)
+                out.append(El(o[1], mm))
             kind = 'ma' if any(v.kind == 'ma' for v in vs) else 'nd'
             return Vec.fresh(out, kind=kind, dtype='f8')
         return PyCallable(run, 'vectorized')
@@ -1139,7 +1142,9 @@ def register(M):
         if (ds[0], ds[1]) == (ds[2], ds[3]) and X.NAN not in ds and X.ANY not in ds:
             res = X.num(0)
         else:
-            res = X.fn('geodist', *ds)
+            # the geodesic distance is symmetric in its two points: canonical point order
+            p1, p2 = sorted([(ds[0], ds[1]), (ds[2], ds[3])], key=repr)
+            res = X.fn('geodist', p1[0], p1[1], p2[0], p2[1])
         return {'s12': Sc(res, 'f8')}
 
     from . import models_pd
